@@ -77,7 +77,17 @@ def eval_case(case: dict) -> dict:
     try:
         enc = case['content']
         lines = T.ref_lines(enc)
-        com = cpp_gen.Comment(T.decode(enc, text_gen.TextBlock))
+        how = case.get('how', 'ctor')
+        if how == 'ctor':
+            com = cpp_gen.Comment(T.decode(enc, text_gen.TextBlock))
+        else:
+            # an empty comment filled afterwards, through append() or the += operator
+            com = cpp_gen.Comment()
+            if how == 'iadd':
+                com += T.decode(enc, text_gen.TextBlock)
+            else:
+                com.append(T.decode(enc, text_gen.TextBlock))
+        cnt[f'filled_via_{how}'] = 1
         if com.lines != lines:
             viol('comment-lines-differ-from-reference', expected=lines[:10], got=com.lines[:10])
         before = list(com.lines)
@@ -95,7 +105,10 @@ def eval_case(case: dict) -> dict:
         if second != first:
             viol('render-not-idempotent', first=first[:120], second=second[:120])
         if case.get('extend') is not None:
-            com.append(T.decode(case['extend'], text_gen.TextBlock))
+            if case.get('extend_how') == 'iadd':
+                com += T.decode(case['extend'], text_gen.TextBlock)
+            else:
+                com.append(T.decode(case['extend'], text_gen.TextBlock))
             more = lines + T.ref_lines(case['extend'])
             cnt['extended_after_render'] = 1
             for mech, detail in judge_rendering(str(com), more):
@@ -192,7 +205,9 @@ def _worker(arg):
     agg = {'violations': [], 'counts': {}, 'cases': []}
     for _ in range(count):
         case = {'content': rand_comment_content(rng),
-                'extend': rand_comment_content(rng) if rng.random() < 0.3 else None}
+                'how': rng.choice(['ctor', 'ctor', 'append', 'iadd']),
+                'extend': rand_comment_content(rng) if rng.random() < 0.3 else None,
+                'extend_how': rng.choice(['append', 'iadd'])}
         res = eval_case(case)
         for key, val in res['counts'].items():
             agg['counts'][key] = agg['counts'].get(key, 0) + val
@@ -207,7 +222,7 @@ def main(tier: str) -> int:
     total = 5000 if tier == 'quick' else 200000
     per = 250 if tier == 'quick' else 2500
     n_pairs = 10 if tier == 'quick' else 200
-    run.require('comments_rendered', 'comment_lines_judged', 'with_unusual_separators',
+    run.require('comments_rendered', 'comment_lines_judged', 'filled_via_iadd', 'filled_via_append', 'with_unusual_separators',
                 'extended_after_render', 'build_pairs', 'files_compared',
                 'lexer_residues_compared')
     for _item, res in run.pmap(_worker, [(run.seed, i, per) for i in range(total // per)]):
